@@ -1351,6 +1351,8 @@ lshpack_dec_dec_int (const unsigned char **src_p, const unsigned char *src_end,
     {
         if (src < src_end)
         {
+            if (M > 28)     /* sixth continuation byte: value does not fit */
+                return -2;
             B = *src++;
             val = val + ((B & 0x7f) << M);
             M += 7;
